@@ -50,7 +50,9 @@ def run(tier, seed):
     # the graph-level wrappers: the kind / type of a port of a node is the one its operation reports
     base_files = [os.path.join(VERIF, "contracts", f) for f in ("node_port.py", "utils.py", "base.py", "base_ports.py")]
     standard_flow(res, FILES, targets(), None, bounded_modules=[("bounded.c06", 120, 600)],
-                  more=[(base_files, ["hugr.hugr.base.Hugr.port_kind", "hugr.hugr.base.Hugr.port_type"])])
+                  more=[(base_files, ["hugr.hugr.base.Hugr.port_kind", "hugr.hugr.base.Hugr.port_type"]),
+                        ([os.path.join(VERIF, "contracts", f) for f in ("node_port.py", "tys.py", "ops.py", "val.py", "std_ops.py")],
+                         ["hugr.std.int._DivModDef.cached_signature", "hugr.std.int._DivModDef.type_args"])])
     for g in ground():
         res.ground.append(g)
         if not g["ok"]:
@@ -63,5 +65,6 @@ def run(tier, seed):
     res.explanation = ("Signatures, output counts and port kinds of every operation class in ops.py are proved against the statement's table "
                        "(incl. Call/LoadFunc with arity-changing instantiations, the order port in both directions, MakeTuple/UnpackTuple inverse through the ext_op chain). "
                        "Hugr.port_kind / Hugr.port_type (base.py) are proved to report what the node's operation reports (KeyError exactly for nodes that are not live). "
-                       "AsExtOp / ExtOp num_out and signatures of the registered standard operations are covered by the bounded table check only, hence category other.")
+                       "DivMod of width w takes and returns two integers of width w (its definition's scheme at N = w). That every extension-backed operation's signature is its definition's scheme instantiated with its own type arguments "
+                       "(DivMod widths 0..6, Not, Noop, MakeTuple / UnpackTuple) is otherwise decided by the bounded table check, hence category other.")
     return res.finish()
